@@ -6,7 +6,10 @@ rationals (`call`), the ones through sqrt/sin/cos/atan2 exactly under the stand-
 interpretation (`callx`, translator validation), the polynomial ones also on the EXACT DOMAIN
 (`calle`: genuine Python ints beyond 2**53 and Fractions with non-dyadic denominators, mixed,
 nothing converted - value and float contamination are judged) and - when the property names them - on floats
-of magnitude 1e-3..1e3 (`callf`, tolerance test).  Edge inputs: zeros, negatives, zero vectors,
+of magnitude 1e-3..1e3 (`callf`, tolerance test).  SEQUENCES (`obj` / `set` / `@id`): operand objects
+(plain lists) that live across the calls of one scenario, are edited in place between two identical
+calls and shared by different functions; `!v` tokens are user number objects whose arithmetic calls
+back into desper.math (re-entrancy).  Edge inputs: zeros, negatives, zero vectors,
 singular / near-singular / sparse matrices, degenerate projection boxes, `limit` thresholds next to
 the vector's length, every attribute string of length 0..5 over `xyzw` plus foreign letters.
 """
@@ -175,7 +178,92 @@ def call_lines(rng, reps):
         elif mode == 'calle':
             yield (f'calle {name} ' + ' '.join(exact_args_for(rng, name))).rstrip()
         else:
-            yield (f'{mode} {name} ' + ' '.join(str(x) for x in args_for(rng, name))).rstrip()
+            toks = [str(x) for x in args_for(rng, name)]
+            if mode == 'call' and rng.random() < 0.3:
+                toks = reentrant(rng, toks, 2.0 / max(len(toks), 2))
+            yield (f'{mode} {name} ' + ' '.join(toks)).rstrip()
+
+
+def reentrant(rng, toks, p):
+    """Turn some argument tokens into user number objects (`!v`): same value, arithmetic that calls
+    back into desper.math."""
+    return [('!' + x if not x.startswith(('@', '!')) and rng.random() < p else x) for x in toks]
+
+
+# parameters that may be given as a plain sequence instead of a Vec / Mat object ("Vec3 or 3 component
+# tuple", "tuple compatibility" of @): the right-hand operand and the `vector` arguments.  Not the
+# vector of matrix @ vector: there the class of the operand selects the operation.
+SEQ_PARAMS = ('other', 'vector')
+NO_SEQ = ('matvec', 'identity_vec', 'radd')
+
+
+def seq_templates():
+    out = []
+    for name, e in API.items():
+        if e.tr or name.partition('.')[2] in NO_SEQ:
+            continue
+        idx = [i for i, (p, k) in enumerate(e.params) if p in SEQ_PARAMS and k != 's']
+        if idx:
+            out.append((name, idx))
+    return out
+
+
+def sequence_scenarios(rng, count):
+    """Calls that share state only through the operands: list objects that live across the calls and
+    are edited in place between them, the same call repeated after an edit, other functions and
+    other operands in between, re-entrant number objects as entries."""
+    templates = seq_templates()
+    for _ in range(count):
+        lines, objs = [], {}
+        for kind, oid in (('m4', 'M'), ('m4', 'P'), ('m3', 'N'), ('v3', 'V'), ('v2', 'W'), ('v4', 'X')):
+            vals = mat(rng, int(kind[1])) if kind[0] == 'm' else vec(rng, int(kind[1]))
+            objs[oid] = (kind, len(vals))
+            lines.append(f'obj {oid} ' + ' '.join(reentrant(rng, [str(v) for v in vals], 0.08)))
+        recent = []
+        # every scenario multiplies by the same list object before and after an in-place edit
+        for name, oid in rng.sample([('Mat4.matmul', 'M'), ('Mat4.matmul', 'P'), ('Mat3.matmul', 'N'),
+                                     ('Mat4.identity_left', 'M'), ('Mat3.identity_left', 'N')], 2):
+            e = API[name]
+            inline = [str(x) for x in args_for(rng, name)][:sum(KIND_LEN[k] for _, k in e.params[:-1])]
+            call = (f'call {name} ' + ' '.join(inline + ['@' + oid])).replace('  ', ' ')
+            lines.append(call)
+            recent.append((call, [oid]))
+            if rng.random() < 0.7:
+                for _ in range(rng.randint(1, 3)):
+                    lines.append(f'set {oid} {rng.randrange(objs[oid][1])} {rat(rng)}')
+                lines.append(call)
+        for _ in range(rng.randint(6, 10)):
+            r = rng.random()
+            if recent and r < 0.45:
+                # edit an operand of an earlier call in place and issue the very same call again
+                call, used = rng.choice(recent)
+                oid = rng.choice(used)
+                for _ in range(rng.randint(1, 3)):
+                    tok = reentrant(rng, [str(rat(rng))], 0.1)[0]
+                    lines.append(f'set {oid} {rng.randrange(objs[oid][1])} {tok}')
+                if rng.random() < 0.3:      # ... with another product in between
+                    name2, _ = rng.choice(templates)
+                    lines.append(f'call {name2} ' + ' '.join(str(x) for x in args_for(rng, name2)))
+                lines.append(call)
+                continue
+            name, idx = rng.choice(templates)
+            e = API[name]
+            flat, toks, used, off = args_for(rng, name), [], [], 0
+            for i, (_, k) in enumerate(e.params):
+                n = KIND_LEN[k]
+                cands = [o for o, (ok, _) in objs.items() if ok == k]
+                if i in idx and cands and rng.random() < 0.85:
+                    o = rng.choice(cands)
+                    toks.append('@' + o)
+                    used.append(o)
+                else:
+                    toks += reentrant(rng, [str(x) for x in flat[off:off + n]], 0.04)
+                off += n
+            call = f'call {name} ' + ' '.join(toks)
+            lines.append(call)
+            if used:
+                recent.append((call, used))
+        yield lines
 
 
 def swizzle_scenarios(rng):
@@ -199,4 +287,5 @@ def generate(rng, tier):
             cur = []
     if cur:
         yield cur
+    yield from sequence_scenarios(rng, 80 if tier == 'quick' else 1500)
     yield from swizzle_scenarios(rng)
